@@ -488,3 +488,11 @@ ASSUMPTIONS = [
     "L2: Z_p is a field for prime p; the smallest non-unit of a composite c divides c (termination of the table loops / refusal of composites; checked end-to-end for c <= 16)",
     "const-reference parameters are extracted as by-value copies (no aliasing between reference parameters)",
 ]
+
+
+def selftest():
+    try:
+        replay_bin()
+        return "native replay program builds against /repo's headers"
+    except Exception as ex:
+        return "FAIL " + str(ex)[:500]
